@@ -257,6 +257,68 @@ func (c *Ctx) ruleM3() {
 					}
 				}
 			})
+			// or the test and its refusal are one step of the function: a same-package helper that
+			// makes the test, returns an error on the refusing outcome, and whose error ends f
+			viaHelper := false
+			if len(presence) == 0 {
+				eachCall(f, func(call ssa.CallInstruction) {
+					h := call.Common().StaticCallee()
+					if h == nil || h.Blocks == nil || h.Pkg != f.Pkg || len(presence) > 0 {
+						return
+					}
+					ev := errResult(call)
+					if ev == nil || !(returnedDirectly(ev) || len(errTests(ev)) > 0) {
+						return
+					}
+					var inner []ssa.CallInstruction
+					eachCall(h, func(ic ssa.CallInstruction) {
+						if g := ic.Common().StaticCallee(); g != nil && g.Blocks != nil && ic.Value() != nil {
+							reads := false
+							eachInstr(g, func(in ssa.Instruction) {
+								if c.isSite(kGetManifest, in) {
+									reads = true
+								}
+							})
+							if reads {
+								inner = append(inner, ic)
+							}
+						}
+					})
+					if len(inner) == 0 {
+						return
+					}
+					dh := derived([]ssa.Value{inner[0].Value()}, flowOpts{})
+					refusesInside := false
+					for _, b := range h.Blocks {
+						if len(b.Instrs) == 0 {
+							continue
+						}
+						iff, ok := b.Instrs[len(b.Instrs)-1].(*ssa.If)
+						if !ok {
+							continue
+						}
+						cond := iff.Cond
+						if u, ok := cond.(*ssa.UnOp); ok && u.Op == token.NOT {
+							cond = u.X
+						}
+						if !dh[cond] {
+							continue
+						}
+						for _, sc := range b.Succs {
+							if hit, _ := findPath(h, atBlock(sc), nil, func(in ssa.Instruction) bool {
+								r, ok := in.(*ssa.Return)
+								return ok && isFailureReturn(r)
+							}, nil); hit != nil && dominates(sc, hit.Block()) {
+								refusesInside = true
+							}
+						}
+					}
+					if refusesInside {
+						presence = append(presence, call)
+						viaHelper = true
+					}
+				})
+			}
 			if len(presence) == 0 {
 				continue
 			}
@@ -331,7 +393,7 @@ func (c *Ctx) ruleM3() {
 				}
 			}
 			cons = fk + "#refusal"
-			if refuses {
+			if refuses || viaHelper {
 				c.ok("M3", cons, presence[0].Pos(), "the outcome of the local-presence test can refuse the request before "+what)
 			} else {
 				c.bad("M3", cons, presence[0].Pos(), "the outcome of the local-presence test never refuses the request: "+map[string]string{"Create": "creating over an existing database is not refused", "Open": "a local-only open of an unknown database is not refused"}[name])
